@@ -17,6 +17,7 @@ import (
 	"verif/checks/c12"
 	"verif/checks/c13"
 	"verif/checks/c15"
+	"verif/checks/c16"
 	"verif/engine/core"
 	"verif/gen/keys"
 )
@@ -39,6 +40,7 @@ var checks = map[string]check{
 	"C12": {"model_checking", c12.Run},
 	"C13": {"exploration", c13.Run},
 	"C15": {"fault_enumeration", c15.Run},
+	"C16": {"exploration", c16.Run},
 }
 
 func main() {
